@@ -227,20 +227,23 @@ def c31_PROPOSED_FIX_keep_unpicklable_exceptions():
             if not any(exception is b for b in bad_exceptions):
                 kept[position] = exception
                 continue
-            proxy = sub._PicklableException(exception)
-            try:
-                dill.loads(dill.dumps(proxy))
-            except Exception:  # noqa: BLE001 - really not transferable: dropped as before
-                continue
-            kept[position] = proxy
+            for proxy in (sub._PicklableException(exception), sub._PicklableException(exception, lossy=True)):
+                try:
+                    dill.loads(dill.dumps(proxy))
+                except Exception:  # noqa: BLE001 - try the lossy form (repr of the arguments), else drop as before
+                    continue
+                kept[position] = proxy
+                break
         result.exceptions = kept
 
     class _PicklableException:
-        def __init__(self, exc):
-            self._exc = exc
+        def __init__(self, exc, lossy=False):
+            self._exc, self._lossy = exc, lossy
 
         def __reduce__(self):
             exc = self._exc
+            if self._lossy:
+                return _rebuild_exception, (type(exc), tuple(repr(a) for a in exc.args), {})
             state = {k: v for k, v in vars(exc).items() if dill.pickles(v)}
             return _rebuild_exception, (type(exc), exc.args, state)
 
@@ -319,9 +322,8 @@ def _child(which, name):
         else:
             import checks.c32_timeouts as chk
 
+            # (one chunk per process: a second setup_sut would find the module already imported with the first tracer)
             chk.run_chunk({"name": "directed", "variant": 0}, ctx)
-            if "bound" not in name:
-                chk.run_chunk({"name": "directed", "variant": 1}, ctx)
     finally:
         shutil.rmtree(ctx.scratch, ignore_errors=True)
     keys = ctx.extra.get("witness_counts", {})
